@@ -790,6 +790,8 @@ SEEK_CONSTS = {
     'LogFileDateSinceSeeker.MAX_SEEK_HORIZON_EXPAND': ('(K.EXP : Int)', INT),
     'self.MAX_SEEK_HORIZON_EXPAND': ('(K.EXP : Int)', INT),
     'len(self)': ('(F.len : Int)', INT),
+    'FindTokenStatus.FOUND': ('Sk.Py.Status.found', STATUS),
+    'FindTokenStatus.REACHED_EOF': ('Sk.Py.Status.eof', STATUS),
 }
 
 FUNCS = [
